@@ -10,6 +10,44 @@ from .report import RuleResult
 from .terms import Child, New
 
 
+def _cond_sig(p):
+    """pure path conditions as {term: polarity}; terms that depend on evaluated
+    values are not comparable across sibling methods and are dropped."""
+    out = {}
+    for c in p.conds:
+        t = c[2]
+        if not t or "Val(" in t or "valuecall" in t or "run(" in t or "Opaque" in t or "exc-of" in t:
+            continue
+        pol = c[1]
+        if t.startswith("unop:Not(") and t.endswith(")"):
+            t, pol = t[len("unop:Not("):-1], not pol
+        if t.startswith("cmp:IsNot("):
+            t, pol = "cmp:Is(" + t[len("cmp:IsNot("):], not pol
+        if t in out and out[t] != pol:
+            out[t] = None
+        else:
+            out.setdefault(t, pol)
+    return out
+
+
+def _compatible(a, b) -> bool:
+    sa, sb = _cond_sig(a), _cond_sig(b)
+    for t, pol in sa.items():
+        if t in sb and pol is not None and sb[t] is not None and sb[t] != pol:
+            return False
+    return True
+
+
+def _count(path, op: str, child: str) -> int:
+    return sum(1 for e in path.events if e.kind == "op" and e.op == op and not e.failed
+               and isinstance(e.target, Child) and e.target.path == child)
+
+
+def _whole(path, op: str, child: str) -> bool:
+    return any(e.kind == "op" and e.op == op and not e.failed and e.whole
+               and isinstance(e.target, Child) and e.target.path == child for e in path.events)
+
+
 def _meth_loc(run: Run, cls, op):
     owner, fn = cls.find_method(op)
     return owner.module.relpath, fn.lineno
@@ -77,10 +115,20 @@ def rule_KC(run: Run) -> RuleResult:
             need = set(op_targets(p, "evaluate")) - {"<self>"}
             if not need or need & bad:
                 continue
-            if not selfop and not any(need <= set(op_targets(k, "keys")) for k in kpaths):
+            if not selfop and not any(need <= set(op_targets(k, "keys")) and _compatible(p, k) for k in kpaths):
                 worst = sorted(need - set().union(*[set(op_targets(k, "keys")) for k in kpaths if set(op_targets(k, "keys")) & need] or [set()]))
                 for c in (worst or sorted(need)):
                     bad.add(c)
+        # (4) multiset coverage with loops unrolled twice: an element consulted in
+        # the second iteration must be keyed as well (not only the last/first one)
+        for k2 in normal(run.paths(cls, "keys", unroll=2)):
+            for c in set(op_targets(k2, "evaluate")):
+                if "[*]" not in c or c in bad:
+                    continue
+                if _count(k2, "evaluate", c) > _count(k2, "keys", c) and not _whole(k2, "keys", c):
+                    bad.add(c)
+                    if c not in evaluated_any:
+                        evaluated_any.append(c)
         trivial = not evaluated_any and not keyed_any
         for c in sorted(set(evaluated_any) | bad):
             if c == "<self>":
@@ -125,7 +173,9 @@ def rule_VA(run: Run) -> RuleResult:
             need.discard("<self>")
             if not need:
                 continue
-            okp = selfeval or any(need <= (set(op_targets(v, "validate")) | set(op_targets(v, "evaluate"))) for v in vpaths)
+            okp = any(need <= (set(op_targets(v, "validate")) | set(op_targets(v, "evaluate"))) and _compatible(p, v) for v in vpaths)
+            if not okp and cls.name in ("_AllOptions",):
+                okp = selfeval
             res.add(f"{cls.qualname}:validate:path{{{','.join(sorted(need))}}} covered", okp, f, ln,
                     f"{cls.name}.evaluate path consults {sorted(need)}; " + ("some validate path covers them all" if okp else "no validate path covers them all"), nec)
         if not needed:
@@ -163,21 +213,17 @@ def rule_XA(run: Run) -> RuleResult:
             ok = c in explained or selfop
             res.add(f"{cls.qualname}:explain:{c} {why}-not-explained", ok, f, ln,
                     f"{cls.name}: child '{c}' is {why} " + ("and explained" if ok else "but never explained"), nec)
-        # every explain path that returns must explain every child keyed on
-        # every keys path whose selection it shares; decided conservatively:
-        # a returning explain path without failed events explains a superset
-        # of some keys path
-        for p in xpaths:
-            if any(e.failed for e in p.events):
+        # for every keys path there is a compatible explain path explaining at
+        # least the children that path keys (path-by-path, not only in the union)
+        for k in kpaths:
+            if any(e.failed for e in k.events):
                 continue
-            ex = set(op_targets(p, "explain"))
-            ev = tuple(op_targets(p, "evaluate"))
-            cands = [k for k in kpaths if not any(e.failed for e in k.events) and tuple(op_targets(k, "evaluate")) == ev]
-            if not cands:
+            kd = set(op_targets(k, "keys")) - {"<self>"}
+            if not kd:
                 continue
-            ok = any(set(op_targets(k, "keys")) - {"<self>"} <= ex for k in cands)
-            res.add(f"{cls.qualname}:explain:path{{{','.join(sorted(ex))}}} covers-keys-path", ok, f, ln,
-                    f"{cls.name}.explain path explaining {sorted(ex)} " + ("covers" if ok else "covers no") + " keys path with the same selection", nec)
+            ok = selfop or any(kd <= set(op_targets(x, "explain")) and _compatible(k, x) for x in xpaths)
+            res.add(f"{cls.qualname}:explain:covers keys path{{{','.join(sorted(kd))}}}", ok, f, ln,
+                    f"{cls.name}.keys path keying {sorted(kd)} " + ("has" if ok else "has no") + " compatible explain path explaining them all", nec)
         common = None
         for k in kpaths:
             ks = set(op_targets(k, "keys")) - {"<self>"}
@@ -230,6 +276,40 @@ def rule_OA(run: Run) -> RuleResult:
                 extra = sorted(fs - ref[c])
                 res.add(f"{cls.qualname}:{op}:{c} options-form", ok, f, ln,
                         f"{cls.name}.{op} passes {sorted(fs)} to '{c}', evaluate passes {sorted(ref[c])}" + (f"; differing: {extra}" if extra else ""), nec)
+        # helper-argument agreement: a selector/helper shared by the four
+        # operations is called with the same arguments in each of them
+        import ast as _ast
+        from . import astu as _astu
+        calls = {}
+        for op in OPS:
+            owner, fn = cls.find_method(op)
+            if owner is not cls and owner.name in ("Evaluatable", "Cacheable", "Validatable", "Explainable"):
+                continue
+            amap = _astu.single_assign_map(fn)
+            pname = _astu.param_names(fn)[0] if _astu.param_names(fn) else "options"
+            for c in _astu.calls_in(fn):
+                if isinstance(c.func, _ast.Attribute) and _astu.is_self_attr(c.func) and cls.find_method(c.func.attr) and c.func.attr not in OPS:
+                    args = []
+                    for a in list(c.args) + [k.value for k in c.keywords]:
+                        a2 = _astu.expand_locals(a, amap, keep=frozenset([pname]))
+                        t = _astu.norm_opts(a2)
+                        t = t.replace(f"'{op}'", "'<op>'").replace(pname, "<options>")
+                        args.append(t)
+                    kws = [k.arg for k in c.keywords]
+                    calls.setdefault(c.func.attr, {}).setdefault(op, set()).add((tuple(args), tuple(kws)))
+        for helper, per_op in calls.items():
+            if "evaluate" not in per_op or len(per_op) < 2:
+                continue
+            ref_forms = per_op["evaluate"]
+            for op, forms in per_op.items():
+                if op == "evaluate":
+                    continue
+                f, ln = _meth_loc(run, cls, op)
+                ok = forms == ref_forms
+                res.add(f"{cls.qualname}:{op}:self.{helper}(...) called as in evaluate", ok, f, ln,
+                        f"{cls.name}.{op} calls self.{helper}{sorted(forms)}, evaluate calls self.{helper}{sorted(ref_forms)}",
+                        "a selector called with other arguments in an inspection method inspects something else than what is evaluated "
+                        "(e.g. only the first Map combination): keys/explain/validate then disagree with evaluate")
     return res
 
 
@@ -386,6 +466,12 @@ def rule_SL(run: Run) -> RuleResult:
                 if others:
                     ok = False
                     detail = f"{op} path applies {others[0].op} to branch '{others[0].target.path}'"
+            if cname == "CaseWhen":
+                for p in normal(run.paths(cls, op, unroll=2)):
+                    for e in p.events:
+                        if e.kind == "op" and isinstance(e.target, Child) and e.target.path == "cases[*].0" and e.whole:
+                            ok = False
+                            detail = f"{op}: {e.op} applied to every condition up front (line {e.line}); conditions are consulted one by one until the first match"
             res.count("paths", n)
             res.add(f"{cls.qualname}:{op}:only-selected-branch", ok, f, ln,
                     detail or f"{cname}.{op}: every returning path touches at most the selected branch ({n} paths)", nec)
